@@ -63,6 +63,8 @@ func bundleSpecs(prop string, thorough bool) []rspec {
 			{Name: "V2/badger", Path: chain.PathProcess2, Backend: "badger"},
 			{Name: "Q/pathbadger+foreign", Path: chain.PathProcess, Backend: "pathbadger", Foreign: true},
 			{Name: "D/pathbadger+restart", Path: chain.PathReplay, Backend: "pathbadger", Disk: true, Restart: true},
+			// mempool checks also between a first (discarded) proposal and the decided one
+			{Name: "VQ/badger+foreign+other-proposal", Path: chain.PathProcess2, Backend: "badger", Foreign: true},
 		}
 		if thorough {
 			s = append(s, rspec{Name: "D2/badger+restart+process", Path: chain.PathProcess, Backend: "badger", Disk: true, Restart: true},
